@@ -12,6 +12,11 @@ def cases(tier, seed):
     for g, origin in G.grammars(tier, seed, n_random=600, exhaustive_prods=2):
         if all(isinstance(s[1], str) for h, b in g[1] for s in (h,) + b):      # to_pda stringifies symbol values: string symbols only
             yield {'kind': 'cfg', 'G': C.to_json(g)}
+    # variables whose names look like the stack symbols to_pda gives to terminals ('#TERM#' + value), and quoted variants of them
+    rng2 = random.Random(seed * 9173 + 5)
+    for i in range(300 if tier == 'quick' else 3000):
+        vs = ['S'] + rng2.sample(['#TERM#a', '#TERM#b', "#TERM#a'", 'A'], rng2.choice([1, 2]))
+        yield {'kind': 'cfg', 'G': C.to_json(C.random_grammar(rng2, vs, ['a', 'b'], rng2.choice([2, 3, 4]), rng2.choice([3, 4, 5])))}
 
 
 def check(case):
